@@ -187,7 +187,8 @@ func (a *sideEffectActor) InboxForwarding(c context.Context, inboxIRI *url.URL, 
 		for iter := to.Begin(); iter != to.End(); iter = iter.Next() {
 			val, err := ToId(iter)
 			if err != nil {
-				return err
+				// A value without an id names no collection.
+				continue
 			}
 			r = append(r, val)
 		}
@@ -197,7 +198,8 @@ func (a *sideEffectActor) InboxForwarding(c context.Context, inboxIRI *url.URL, 
 		for iter := cc.Begin(); iter != cc.End(); iter = iter.Next() {
 			val, err := ToId(iter)
 			if err != nil {
-				return err
+				// A value without an id names no collection.
+				continue
 			}
 			r = append(r, val)
 		}
@@ -207,7 +209,8 @@ func (a *sideEffectActor) InboxForwarding(c context.Context, inboxIRI *url.URL, 
 		for iter := audience.Begin(); iter != audience.End(); iter = iter.Next() {
 			val, err := ToId(iter)
 			if err != nil {
-				return err
+				// A value without an id names no collection.
+				continue
 			}
 			r = append(r, val)
 		}
